@@ -1,10 +1,55 @@
 package c03
 
 import (
+	"encoding/json"
+	"os"
+	"path/filepath"
+	"strings"
 	"testing"
 
 	"verifharness/vt"
 )
 
-func TestProp(t *testing.T)   { vt.RunAll(t, 250) }
+func TestProp(t *testing.T) {
+	if s := os.Getenv("VERIF_SHARD"); s == "" || s == "0" {
+		probeKnown(t, KnownHistoricLedger)
+	}
+	vt.RunAll(t, 250)
+}
 func TestReplay(t *testing.T) { vt.ReplayAll(t) }
+
+// probeKnown re-confirms a listed finding from its recorded case (the generator does not draw the shape while the
+// finding is listed) and prints the KNOWN-FINDING line.
+func probeKnown(t *testing.T, key string) {
+	if !vt.Known(key) {
+		return
+	}
+	root := os.Getenv("VERIF_ROOT")
+	if root == "" {
+		root = "/verif"
+	}
+	raw, err := os.ReadFile(filepath.Join(root, "replays", "C03", "known", key+".json"))
+	if err != nil {
+		t.Logf("%s: %v", key, err)
+		return
+	}
+	var env struct {
+		Case Case `json:"case"`
+	}
+	if err := json.Unmarshal(raw, &env); err != nil {
+		t.Fatal(err)
+	}
+	cerr := checkCase(env.Case, &vt.Obs{})
+	if cerr == nil {
+		t.Logf("%s: the recorded case no longer fails (remove the entry from known_findings.json)", key)
+		return
+	}
+	s := cerr.Error()
+	if i := strings.Index(s, "differs from what the live node returned"); i >= 0 {
+		s = "historic invocation of a script calling Ledger.getTransactionHeight / getTransactionVMState / getTransaction " + s[i:]
+	}
+	if len(s) > 700 {
+		s = s[:700] + "..."
+	}
+	vt.KnownFinding(key, s)
+}
